@@ -68,7 +68,124 @@ def cstr_(s):
     return "[" + "; ".join("%d%%N" % ord(c) for c in s) + "]"
 
 
+def gen_config():
+    """argparse actions of setup_parser(), the config-file schema of configfile_options_iter(None),
+    Configuration.defaults, the file search order and the small tables the converters consult.
+    Fail-closed: anything this translator does not understand raises."""
+    import logging
+    import configparser
+    from behave import configuration as C
+    from behave.userdata import parse_user_define
+    from behave.tag_expression import TagExpressionProtocol
+    from behave.formatter import _registry as freg
+
+    def ctype(t):
+        if t is None:
+            return "TNone"
+        if t is C.positive_number:
+            return "TPosInt"
+        if getattr(t, "__func__", None) is C.LogLevel.parse_type.__func__:
+            return "TLogLevel"
+        if getattr(t, "__func__", None) is TagExpressionProtocol.from_name.__func__:
+            return "TProto"
+        if t is parse_user_define:
+            return "TDefine"
+        raise ValueError("gen_config: unknown option type %r" % (t,))
+
+    protos = [m.name for m in TagExpressionProtocol]
+
+    def cval(v):
+        if v is None:
+            return "VNone"
+        if isinstance(v, bool):
+            return "(VBool %s)" % cbool(v)
+        if isinstance(v, int):
+            return "(VInt %d%%Z)" % v
+        if isinstance(v, str):
+            return "(VStr %s)" % cstr_(v)
+        if isinstance(v, TagExpressionProtocol):
+            return "(VProto %d)" % protos.index(v.name)
+        if isinstance(v, dict) and not v:
+            return "(VDefs (@nil (ustr * ustr)))"
+        raise ValueError("gen_config: unknown default value %r" % (v,))
+
+    actions = {"_StoreAction": "AStore", "_StoreTrueAction": "AStoreTrue", "_StoreFalseAction": "AStoreFalse",
+               "_StoreConstAction": "AStoreConst", "_AppendAction": "AAppend"}
+    parser = C.setup_parser()
+    rows = []
+    for a in parser._actions:
+        kind = type(a).__name__
+        if kind == "_HelpAction":
+            continue
+        if kind not in actions:
+            raise ValueError("gen_config: unknown argparse action %s" % kind)
+        if a.nargs not in (None, 0, "?", "*"):
+            raise ValueError("gen_config: unknown nargs %r" % (a.nargs,))
+        if a.nargs == "*" and a.option_strings:
+            raise ValueError("gen_config: nargs=* on an option")
+        rows.append("  mkOpt %s %s %s %s %s %s %s %s" % (
+            clist([cstr_(f) for f in a.option_strings], "ustr"), cstr_(a.dest), actions[kind], ctype(a.type),
+            cval(a.default), cval(a.const), cbool(a.nargs == "?"),
+            clist([cstr_(c) for c in (a.choices or [])], "ustr")))
+    fileacts = {"store": "AStore", "store_true": "AStoreTrue", "append": "AAppend"}
+    frows = []
+    for dest, action, vtype in C.configfile_options_iter(None):
+        if action not in fileacts:
+            raise ValueError("gen_config: unknown config-file action %s" % action)
+        frows.append("  (%s, %s, %s)" % (cstr_(dest), fileacts[action], ctype(vtype)))
+    defaults = ["  (%s, %s)" % (cstr_(k), cval(v)) for k, v in C.Configuration.defaults.items()]
+    # file search order: which (directory, file name) pairs are read, first read first
+    import os
+    old_home, old_isfile = os.environ.get("HOME"), os.path.isfile
+    os.environ["HOME"] = "/@HOME@"
+    os.path.isfile = lambda p: True
+    try:
+        names = list(C.config_filenames())
+    finally:
+        os.path.isfile = old_isfile
+        if old_home is None:
+            del os.environ["HOME"]
+        else:
+            os.environ["HOME"] = old_home
+    order = []
+    for n in names:
+        d, f = os.path.split(n)
+        if d not in (".", "/@HOME@"):
+            raise ValueError("gen_config: unexpected config directory %r" % d)
+        ext = f.split(".")[-1]
+        fn = C.CONFIG_FILE_PARSERS.get(ext)
+        kind = {C.read_configparser: "KIni", getattr(C, "read_toml_config", None): "KToml", None: "KNone"}[fn]
+        order.append("  (%s, %s, %s)" % (cbool(d != "."), cstr_(f), kind))
+    levels = sorted((n, getattr(logging, n)) for n in dir(logging) if n == n.upper() and type(getattr(logging, n)) is int)
+    fmts = sorted(n for n in freg._formatter_registry.keys()) if hasattr(freg, "_formatter_registry") else None
+    if fmts is None:
+        raise ValueError("gen_config: formatter registry layout changed")
+    fmts = [n for n in fmts if freg.is_formatter_valid(n)]
+    out = ["(* GENERATED from %s/behave/configuration.py (setup_parser(), configfile_options_iter(None)," % REPO,
+           "   Configuration.defaults, config_filenames()), logging and configparser by harness/gen_more.py — do not edit *)",
+           "From BV Require Import Base ConfigTypes.", "",
+           "Definition cli_options : list opt := [\n%s\n]." % ";\n".join(rows), "",
+           "Definition file_options : list (ustr * action * vtype) := [\n%s\n]." % ";\n".join(frows), "",
+           "Definition class_defaults : list (ustr * cval) := [\n%s\n]." % ";\n".join(defaults), "",
+           "(* (in home directory?, file name, reader) in the order the files are read: later files override earlier ones *)",
+           "Definition file_order : list (bool * ustr * fkind) := [\n%s\n]." % ";\n".join(order), "",
+           "Definition proto_names : list ustr := %s." % clist([cstr_(n) for n in protos], "ustr"),
+           "Definition proto_strict : nat := %d." % protos.index(TagExpressionProtocol.STRICT.name),
+           "Definition proto_default : nat := %d." % protos.index(TagExpressionProtocol.DEFAULT.name),
+           "Definition level_names : list (ustr * Z) := %s." % clist(["(%s, %d%%Z)" % (cstr_(n), v) for n, v in levels], "ustr * Z"),
+           "Definition ini_true : list ustr := %s." % clist([cstr_(k) for k, v in configparser.ConfigParser.BOOLEAN_STATES.items() if v], "ustr"),
+           "Definition ini_false : list ustr := %s." % clist([cstr_(k) for k, v in configparser.ConfigParser.BOOLEAN_STATES.items() if not v], "ustr"),
+           "Definition valid_formats : list ustr := %s." % clist([cstr_(n) for n in fmts], "ustr"),
+           "Definition excluded_file_dests : list ustr := %s." % clist([cstr_(n) for n in sorted(C.CONFIGFILE_EXCLUDED_OPTIONS)], "ustr"),
+           "Definition ascii_upper : list (N * N) := %s." % clist(["(%d%%N, %d%%N)" % (c, ord(chr(c).upper())) for c in range(128) if chr(c).upper() != chr(c)], "N * N"),
+           "Definition ascii_lower : list (N * N) := %s." % clist(["(%d%%N, %d%%N)" % (c, ord(chr(c).lower())) for c in range(128) if chr(c).lower() != chr(c)], "N * N"),
+           "Definition default_runner : ustr := %s." % cstr_(C.DEFAULT_RUNNER_CLASS_NAME),
+           "Definition color_off : ustr := %s." % cstr_(C.COLOR_DEFAULT_OFF)]
+    return "\n".join(out) + "\n"
+
+
 GENERATORS = {
+    "ConfigTables.v": gen_config,
     "ActiveTagTables.v": gen_activetag,
     "SummaryTables.v": gen_summary,
     "UnicodeTables.v": gen_unicode,
